@@ -292,6 +292,20 @@ def gen_plan(rng, tier):
         twin.pop("share_key", None)
         slots[0].pop("share_key", None)
         slots[1] = twin
+    if nslots >= 2 and rng.random() < 0.05:
+        # wall mirror: slot 0 keeps its one label right of a lower bound, slot 1 keeps its
+        # one label left of an upper bound, and the numbers coincide (bound of the one =
+        # wanted position of the other, same width; identity scale): two layout problems
+        # with equal positions and gaps in which only the ROLE of each value differs
+        W = rng.choice([460, 760])
+        w = rng.choice([30, 50, 96])
+        m = rng.choice([60, 100, 250])
+        p = m + rng.choice([5, 20, 40, 120])
+        common = {"direction": rng.choice(["up", "down"]), "initialWidth": W + 40,
+                  "domain": [["n", 0], ["n", W]]}
+        for k, (t, lab) in enumerate([(p, {"minPos": m}), (m, {"minPos": None, "maxPos": p})]):
+            slots[k] = {"backend": rng.choice(["svg", "tex"]), "items": [{"time": ["n", t], "width": w}],
+                        "options": dict(copy.deepcopy(common), labella=lab), "scale": "own_linear"}
     initial = copy.deepcopy(slots)
     constructed = [False] * nslots
     nfile = 0
@@ -544,9 +558,16 @@ def _run(plan):
             if objs[i] is None:
                 outcome = "skipped"
             else:
-                objs[i].options[op[2]] = op[3]
-                tweaks[i].append([op[2], op[3]])
-                bump("probe:option_changed_on_live_timeline")
+                try:
+                    objs[i].options[op[2]] = op[3]
+                except TypeError:
+                    # a timeline whose options mapping is read-only refuses the write
+                    # loudly: its options are what they were
+                    outcome = "refused"
+                    bump("probe:option_write_refused")
+                else:
+                    tweaks[i].append([op[2], op[3]])
+                    bump("probe:option_changed_on_live_timeline")
         elif kind == "poke":
             # the user calls helpers and reads attributes between exports; nothing
             # here may change what any timeline exports later
@@ -705,8 +726,7 @@ def _run(plan):
                 nf_fs, nf_peer = len(fs.fired), len(peer.fired)
                 if afault:
                     bump("fault:abort:configured")
-                    clone = copy.deepcopy(objs[i])
-                    res, tr = _traced(afault, lambda: clone.export(),
+                    res, tr = _traced(afault, lambda: objs[i].export(),
                                       lambda: _do_export(objs[i], spec, fs, op))
                     if tr.fired:
                         faulted = True
@@ -778,25 +798,13 @@ EXC = {"SimAbort": seams.SimAbort, "MemoryError": MemoryError, "KeyboardInterrup
 
 def _traced(fault, dry, real):
     """Run real() with an exception injected at a seeded fraction of the line
-    events that dry() executes inside labella.  Returns (result or None,
-    tracer)."""
-    counter = seams.AbortTracer(-1, fault["scope"])
-    with counter:
-        try:
-            dry()
-        except Exception:
-            pass
+    events that dry() executes inside labella (counted in a forked copy of this
+    process).  Returns (result or None, tracer)."""
     scope = fault["scope"]
-    total = counter.n
+    total, total_any = seams.dry_count(dry, scope)
     if total == 0:
         scope = "any"
-        counter = seams.AbortTracer(-1, "any")
-        with counter:
-            try:
-                dry()
-            except Exception:
-                pass
-        total = counter.n
+        total = total_any
     k = 1 + (total * fault["frac"]) // 1000000
     tr = seams.AbortTracer(k, scope, EXC[fault["exc"]])
     res = None
